@@ -16,7 +16,7 @@ trap 'git -C /repo worktree remove --force "$wt" >/dev/null 2>&1' EXIT
 git -C "$wt" apply "$patch" || { echo "patch does not apply"; exit 2; }
 cd /verif
 for c in "$@"; do
-  out=$(NUSYM_REPO="$wt" NUSYM_EVIDENCE_DIR="/tmp/nusym-seeded-evidence" timeout 3000 python3-vt check.py "$c" --tier quick 2>&1)
+  out=$(NUSYM_REPO="$wt" NUSYM_EVIDENCE_DIR="/tmp/nusym-seeded-evidence" timeout 3000 python3-vt check.py "$c" --tier quick ${ONLY:+--only $ONLY} 2>&1)
   code=$?
   echo "$id $c exit=$code $(echo "$out" | grep -m1 '^VIOLATION' ) $(echo "$out" | grep -A1 -m1 '^VIOLATION' | tail -1 | cut -c1-220)"
   echo "$out" | grep '^INCONCLUSIVE' | head -2 | cut -c1-300
